@@ -440,6 +440,8 @@ def r9(ctx):
 
 
 def run(ctx):
+    import rules.C03 as c03
+    c03.initial_state_rule(ctx, 'C01.R16')
     ctx.rule('C01.R12', 'no exit of handleReceive lies between the reception of a symbol and the CRC update other than the '
              'transitions that restart reception (ready, skip, no signal) and the own AUTO-SYN: every other received symbol '
              'is part of the CRC', minimum=4)
